@@ -52,9 +52,9 @@ func generate(w *mon.W) {
 		parts := gen.Lexemes(src)
 		join := func(p []string) string { return strings.Join(p, " ") }
 		for i := range parts {
-			do(join(append(append([]string{}, parts[:i]...), parts[i+1:]...)))                                    // delete
-			do(join(append(append(append([]string{}, parts[:i]...), parts[i]), parts[i:]...)))                   // duplicate
-			do(join(parts[:i]))                                                                                  // truncate
+			do(join(append(append([]string{}, parts[:i]...), parts[i+1:]...)))                 // delete
+			do(join(append(append(append([]string{}, parts[:i]...), parts[i]), parts[i:]...))) // duplicate
+			do(join(parts[:i]))                                                                // truncate
 			if i+1 < len(parts) {
 				t := append([]string{}, parts...)
 				t[i], t[i+1] = t[i+1], t[i]
